@@ -38,6 +38,8 @@ where
     /// layer-A `sem` JSON -> "shown" schema
     fn canon_sem(a: &Value, d: &Dims) -> Value;
     fn tree_has_pending(t: &Tree) -> bool;
+    /// a random nested command (the spec's ValCmds) for local value v
+    fn random_cmd(v: &Self, rng: &mut rand::rngs::StdRng, d: &Dims) -> Value;
     fn nested_add_all(_o: &<Self as CmRDT>::Op) -> bool {
         false
     }
@@ -85,6 +87,10 @@ impl MVal for MVReg<u8, u8> {
     }
     fn tree_has_pending(_t: &Tree) -> bool {
         false
+    }
+    fn random_cmd(_v: &Self, rng: &mut rand::rngs::StdRng, _d: &Dims) -> Value {
+        use rand::Rng;
+        json!({"c": "write", "v": rng.gen_range(1..=2u64)})
     }
 }
 
@@ -141,6 +147,15 @@ impl MVal for Orswot<u8, u8> {
     }
     fn tree_has_pending(t: &Tree) -> bool {
         !t.field("deferred").map().is_empty()
+    }
+    fn random_cmd(v: &Self, rng: &mut rand::rngs::StdRng, d: &Dims) -> Value {
+        use rand::Rng;
+        let present: Vec<u64> = v.read().val.iter().map(|x| *x as u64).collect();
+        if !present.is_empty() && rng.gen_bool(0.4) {
+            json!({"c": "rm", "m": present[rng.gen_range(0..present.len())]})
+        } else {
+            json!({"c": "add", "m": rng.gen_range(1..=d.m.max(1)) as u64})
+        }
     }
     fn nested_add_all(o: &crdts::orswot::Op<u8, u8>) -> bool {
         matches!(o, crdts::orswot::Op::Add { members, .. } if members.len() >= 2)
@@ -284,6 +299,17 @@ where
     fn tree_has_pending(t: &Tree) -> bool {
         !t.field("deferred").map().is_empty()
             || t.field("entries").map().iter().any(|(_, e)| V::tree_has_pending(e.field("val")))
+    }
+    fn random_cmd(v: &Self, rng: &mut rand::rngs::StdRng, d: &Dims) -> Value {
+        use rand::Rng;
+        let present: Vec<u64> = v.keys().map(|c| *c.val as u64).collect();
+        if !present.is_empty() && rng.gen_bool(0.3) {
+            json!({"c": "rm", "k": present[rng.gen_range(0..present.len())]})
+        } else {
+            let k = rng.gen_range(1..=d.k.max(1)) as u8;
+            let inner = v.get(&k).val.unwrap_or_default();
+            json!({"c": "up", "k": k as u64, "sub": V::random_cmd(&inner, rng, d)})
+        }
     }
 }
 
@@ -472,4 +498,15 @@ fn reads_from(sem: &Value, clock: &Value, wit: &[Value], d: &Dims) -> Value {
         "is_empty": {"val": len == 0, "add": clock, "rm": clock},
         "read_ctx": {"add": clock, "rm": clock},
     })
+}
+
+impl<V: MVal> crate::drive::Driveable for MapEng<V>
+where
+    <V as CmRDT>::Op: Clone + Debug + Serialize + DeserializeOwned + PartialEq,
+    <V as CmRDT>::Validation: Debug,
+    <V as CvRDT>::Validation: Debug,
+{
+    fn random_cmd(s: &Self::S, rng: &mut rand::rngs::StdRng, d: &Dims) -> Option<Value> {
+        Some(<Map<u8, V, u8> as MVal>::random_cmd(s, rng, d))
+    }
 }
